@@ -263,7 +263,9 @@ def run_loop_batches(ctx: Ctx):
         N = rng.randint(2, 5)
         xs = {f'x{i}': np.array([round(rng.random(), 4) for _ in range(N)]) for i in range(spec['size'])}
         maxit = rng.choice([1, 2, 3, 4, 6]); tol = rng.choice([1e-3, 1e-8, 1e-12])
-        case = {'loop_batch': n, 'size': spec['size'], 'x': {k: v.tolist() for k, v in xs.items()}, 'max_fpi_iter': maxit, 'fpi_tol': tol}
+        if rng.random() < 0.5:      # one sample that can never converge (NaN input) next to samples that converge comfortably
+            xs['x0'][rng.randrange(N)] = np.nan; maxit = 60; tol = 1e-8
+        case = {'loop_batch': n, 'size': spec['size'], 'x': {k: [None if t != t else t for t in v.tolist()] for k, v in xs.items()}, 'max_fpi_iter': maxit, 'fpi_tol': tol}
         ctx.case(case, nontrivial=True, kind='loop-batch')
         try:
             y = system.predict(xs, use_model='best', max_fpi_iter=maxit, fpi_tol=tol, anderson_mem=1)
